@@ -881,8 +881,12 @@ def r02_4(ctx):
     px = PX(repo, inline=inline_ash(stop=("frame_received", "_write_frame")), max_paths=50)
     for have in (0, 1, MAX - 1, MAX):
         for n in (0, 1, 2, MAX - 1, MAX, MAX + 1, 3 * MAX + 7):
-            old = bytes([0x41 + (i % 7) for i in range(have)])
-            new = bytes([0x61 + (i % 5) for i in range(n)])
+          for kind in ("letters", "escapes"):
+            # ordinary bytes, and runs of the escape byte (the one reserved value that does not end the scan)
+            if kind == "escapes" and not (have in (0, MAX) and n in (1, MAX + 1, 3 * MAX + 7)):
+                continue
+            old = bytes([0x41 + (i % 7) for i in range(have)]) if kind == "letters" else b"\x7d" * have
+            new = bytes([0x61 + (i % 5) for i in range(n)]) if kind == "letters" else b"\x7d" * n
             paths = px.explore(f, lambda: (self_obj(cls, {"_buffer": bytearray(old), "_discarding_until_next_flag": False}), {"data": new}))
             ctx.case(1)
             if len(paths) != 1:
@@ -892,7 +896,7 @@ def r02_4(ctx):
             if not isinstance(buf, (bytes, bytearray)):
                 raise AnalysisError(f"buffer after garbage is not concrete: {buf!r:.80}")
             want = (old + new)[-MAX:] if len(old + new) > MAX else old + new
-            ctx.require(p.terminal == "return" and bytes(buf) == want, f"bound({have}+{n})",
+            ctx.require(p.terminal == "return" and bytes(buf) == want, f"bound({have}+{n})" + ("" if kind == "letters" else ":escape-bytes"),
                         f"{have} buffered + {n} garbage bytes -> buffer of {len(buf)} bytes (bound {MAX}); must hold the last "
                         f"{len(want)} bytes", func=f)
     # while discarding (a SUBSTITUTE was seen) flag-free garbage is dropped altogether and the mode stays on
@@ -991,6 +995,8 @@ def _streams(ctx):
     garbage = bytes(0x41 + (i % 23) for i in range(MAX + 300))
     nseq = len(spec_lfsr(0)) + 300  # a DATA field longer than any randomisation sequence the receiver can hold (256 on the pinned tree)
     oversize = st(bytes([0x25]) + bytes((7 * i) & 0xFF for i in range(nseq)))
+    lf = spec_lfsr(200)
+    long_reserved = st(bytes([0x25]) + bytes([0x7E, 0x7D, 0x11, 0x13, 0x18, 0x1A][i % 6] for i in range(200)))  # (the data field as it is on the wire)
     return {
         "oversize-data": oversize + F + ack + F,
         "frame-substitute-frames": data + F + b"ab\x18cd" + F + ack + F + rstack + F,
@@ -1009,6 +1015,12 @@ def _streams(ctx):
         "error-then-rstack": error + F + rstack + F,
         "trailing-escape": ack[:-1] + b"\x7d" + F + ack + F,
         "overflow-then-frames": garbage + F + rstack + F + data + F,
+        # a SUBSTITUTE whose closing FLAG comes in a later read, the bytes up to that FLAG forming a well-formed frame of their own
+        # (they are to be ignored), the stream ending with that FLAG; then the same with more frames behind
+        "substitute-then-wellformed": data + F + b"\x18" + ack + F,
+        "substitute-then-wellformed-then-frames": b"\x18" + rstack + F + ack + F + data + F,
+        # the longest frame the peer may send, every byte of it a reserved value on the wire (all of them escaped)
+        "longest-frame-all-escaped": long_reserved + F + ack + F,
     }
 
 
@@ -1025,7 +1037,8 @@ def _frame_fields(o):
     return out
 
 
-RESET_STREAMS = ("frame-substitute-frames", "junk-glued-to-rstack", "cancel-then-frames", "error-then-rstack", "overflow-then-frames")
+RESET_STREAMS = ("frame-substitute-frames", "junk-glued-to-rstack", "cancel-then-frames", "error-then-rstack", "overflow-then-frames",
+                 "substitute-then-wellformed-then-frames")
 
 
 @rule("R02.5", ["C02", "C04", "C01", "C11", "C09", "C03"], "T-FUN", floor=60)
@@ -1085,6 +1098,17 @@ def r02_5(ctx):
         else:
             step = max(1, n // 9)
             cuts = [()] + [(i,) for i in sorted(set(list(range(1, n, step)) + [n - 1, n - 2, 2]))] + [(n // 3, 2 * n // 3)]
+            # and right behind every reserved byte (where the scanner's state changes), alone and together with the end of the frame
+            # that follows: a read that ends with a SUBSTITUTE, a read that is exactly one flag-terminated run of bytes, ...
+            special = [i for i, b_ in enumerate(stream) if b_ in (0x7E, 0x7D, 0x11, 0x13, 0x18, 0x1A)]
+            if len(special) <= 40:
+                for i in special:
+                    if 0 < i + 1 < n and (i + 1,) not in cuts:
+                        cuts.append((i + 1,))
+                    if stream[i] in (0x18, 0x1A):
+                        j = stream.find(b"\x7e", i + 1)
+                        if 0 <= j and i + 1 < j + 1 <= n:
+                            cuts.append((i + 1, j + 1))
         for cut in cuts:
             bounds = [0] + [c for c in cut if 0 < c < n] + [n]
             chunks = [stream[a:b] for a, b in zip(bounds, bounds[1:])]
